@@ -89,8 +89,8 @@ Definition set_body (p : pkt) (b : list N) : pkt :=
 
 Ltac proj_simpl := cbn [k_v k_p k_x k_cc k_m k_pt k_seq k_sim k_chan k_dt k_sub k_ts k_ifi k_fi k_blen k_body k_video set_body fresh_pkt].
 
-Lemma head_ok p rest : wf_packet p ->
-  decode_head fresh_pkt (std_head p ++ rest) = Ok (set_body p [], rest).
+Lemma head_ok r p rest : wf_packet p ->
+  decode_head r (std_head p ++ rest) = Ok (set_body p (k_body r), rest).
 Proof.
   destruct p as [v pp x cc m pt sq sim ch dt sb ts ifi fi blen body video].
   unfold wf_packet; proj_simpl.
@@ -105,7 +105,7 @@ Proof.
   destruct (type_fields dt sb Hdt Hsub) as (T1 & T2 & _).
   cbv zeta in A1, A2, A3, A4, S1, S2, T1, T2.
   rewrite A1, A2, A3, A4, S1, S2, T1, T2.
-  rewrite is_video_lt. proj_simpl. rewrite orb_false_r.
+  rewrite is_video_lt. proj_simpl.
   unfold DT_PENETRATE.
   set (tsl := if dt =? 4 then [] else be_enc 8 ts).
   set (ivl := if dt <? 3 then be_enc 2 ifi ++ be_enc 2 fi else []).
@@ -140,10 +140,10 @@ Proof.
   rewrite Ets, Eifi, Efi, <- Hvid. reflexivity.
 Qed.
 
-Theorem one_packet p rest : wf_packet p ->
-  decode fresh_pkt (std_packet p ++ rest) = Ok (p, rest).
+Theorem one_packet r p rest : wf_packet p ->
+  decode r (std_packet p ++ rest) = Ok (p, rest).
 Proof.
-  intros W. unfold decode. rewrite std_packet_split, <- app_assoc, head_ok by exact W.
+  intros W. unfold decode. rewrite std_packet_split, <- app_assoc, (head_ok r) by exact W.
   cbn [bind]. destruct W as (_ & _ & _ & _ & _ & _ & _ & _ & _ & _ & _ & _ & _ & _ & Hbl & _ & _ & _).
   destruct p as [v pp x cc m pt sq sim ch dt sb ts ifi fi blen body video].
   proj_simpl. cbn [k_blen k_body] in Hbl.
@@ -168,6 +168,19 @@ Proof.
     rewrite IH; auto. cbn in Hf. lia.
 Qed.
 
+Lemma decode_all_reuse_fuel ps : forall fuel r, Forall wf_packet ps -> (length ps <= fuel)%nat ->
+  decode_all_reuse fuel r (flat_map std_packet ps) = Ok ps.
+Proof.
+  induction ps as [|p ps IH]; intros fuel r W Hf.
+  - destruct fuel; reflexivity.
+  - inversion W as [|? ? Wp Wps]; subst. cbn [flat_map].
+    destruct (std_packet_nonempty p) as (b & t & E).
+    destruct fuel as [|f]; [cbn in Hf; lia|].
+    cbn [decode_all_reuse]. rewrite E. cbn [app]. rewrite (app_comm_cons t), <- E.
+    rewrite one_packet by exact Wp. cbn [bind].
+    rewrite IH; auto. cbn in Hf. lia.
+Qed.
+
 Definition decode_stream (d : list N) : result (list pkt) := decode_all (length d) d.
 
 Lemma flat_map_length_ge ps : (length ps <= length (flat_map std_packet ps))%nat.
@@ -178,6 +191,9 @@ Qed.
 
 Theorem stream ps : Forall wf_packet ps -> decode_stream (flat_map std_packet ps) = Ok ps.
 Proof. intros W. apply decode_all_fuel. exact W. apply flat_map_length_ge. Qed.
+
+Theorem stream_reuse r ps : Forall wf_packet ps -> decode_stream_reuse r (flat_map std_packet ps) = Ok ps.
+Proof. intros W. apply decode_all_reuse_fuel. exact W. apply flat_map_length_ge. Qed.
 
 (* ---- unqualified ---- *)
 Theorem unqualified r d : (16 <= length d)%nat -> firstn 4 d <> marker ->
@@ -192,8 +208,8 @@ Proof.
 Qed.
 
 (* ---- too short ---- *)
-Lemma head_short p d s : wf_packet p -> d ++ s = std_head p -> s <> [] ->
-  decode_head fresh_pkt d = Err E1078_SHORT_HEAD.
+Lemma head_short r p d s : wf_packet p -> d ++ s = std_head p -> s <> [] ->
+  decode_head r d = Err E1078_SHORT_HEAD.
 Proof.
   intros W E Hs.
   pose proof (std_head_len p) as HL.
@@ -217,8 +233,8 @@ Proof.
   rewrite Hlen. reflexivity.
 Qed.
 
-Theorem short p d s : wf_packet p -> d ++ s = std_packet p -> s <> [] ->
-  decode fresh_pkt d = Err E1078_SHORT_HEAD \/ decode fresh_pkt d = Err E1078_SHORT_BODY.
+Theorem short r p d s : wf_packet p -> d ++ s = std_packet p -> s <> [] ->
+  decode r d = Err E1078_SHORT_HEAD \/ decode r d = Err E1078_SHORT_BODY.
 Proof.
   intros W E Hs. rewrite std_packet_split in E.
   destruct (Nat.lt_ge_cases (length d) (length (std_head p))) as [Hlt | Hge].
@@ -230,7 +246,7 @@ Proof.
         rewrite firstn_app in F. replace (length d - length (std_head p))%nat with 0%nat in F by lia.
         cbn [firstn] in F. rewrite app_nil_r in F. rewrite <- F at 1. apply firstn_skipn.
       - intros C. apply (f_equal (@length N)) in C. rewrite skipn_length in C. cbn [length] in C. lia. }
-    rewrite (head_short p d s' W E' Hs'). reflexivity.
+    rewrite (head_short r p d s' W E' Hs'). reflexivity.
   - right. unfold decode.
     assert (exists b', d = std_head p ++ b' /\ b' ++ s = k_body p) as (b' & -> & Eb).
     { exists (skipn (length (std_head p)) d).
@@ -241,7 +257,7 @@ Proof.
       split. rewrite <- F at 1. symmetry. apply firstn_skipn.
       rewrite <- (firstn_skipn (length (std_head p)) d) in E. rewrite F, <- app_assoc in E.
       apply app_inv_head in E. exact E. }
-    rewrite head_ok by exact W. cbn [bind].
+    rewrite (head_ok r) by exact W. cbn [bind].
     destruct W as (_ & _ & _ & _ & _ & _ & _ & _ & _ & _ & _ & _ & _ & _ & Hbl & _ & _ & _).
     destruct p as [v pp x cc m pt sq sim ch dt sb ts ifi fi blen body video].
     proj_simpl. cbn [k_blen k_body] in *.
@@ -250,20 +266,20 @@ Proof.
     rewrite Hbl, <- Eb, len_app. lia.
 Qed.
 
-(* ---- totality on a fresh receiver; a reused receiver can panic ---- *)
+(* ---- totality, for every receiver (since fix b666e97 the receiver's state is cleared) ---- *)
 Lemma take_not_panic n l : n <= len l -> exists a b, take n l = Ok (a, b) /\ len b = len l - n.
 Proof.
   intros H. destruct (take_ok n l H) as (a & b & E & -> & L). exists a, b. split; auto.
   rewrite len_app. lia.
 Qed.
 
-Theorem total_fresh d : decode fresh_pkt d <> Panic.
+Theorem total r d : decode r d <> Panic.
 Proof.
   unfold decode, decode_head.
   do 16 (destruct d as [|? d]; [discriminate|]).
   destruct (negb _); [discriminate|].
   match goal with |- context [N.land (N.shiftr ?t 4) 15] => set (dt := N.land (N.shiftr t 4) 15) end.
-  proj_simpl. rewrite orb_false_r. unfold DT_PENETRATE.
+  proj_simpl. unfold DT_PENETRATE.
   destruct (len _ <? _) eqn:Hl; [discriminate|].
   rewrite !len_cons in Hl. rewrite is_video_lt in *.
   destruct (dt =? 4) eqn:E4; destruct (dt <? 3) eqn:E3; try lia.
@@ -279,4 +295,19 @@ Proof.
     cbn [bind]. destruct (take_not_panic 2 b0 ltac:(lia)) as (a & b & -> & L). cbn [bind]. proj_simpl.
     destruct (len b <? be_dec a) eqn:Hb; [discriminate|].
     destruct (take_not_panic (be_dec a) b ltac:(lia)) as (a' & b' & -> & _). discriminate.
+Qed.
+
+Theorem total_fresh d : decode fresh_pkt d <> Panic.
+Proof. apply total. Qed.
+
+(* the result never depends on what the receiver decoded before *)
+Theorem receiver_irrelevant r d : decode r d = decode fresh_pkt d.
+Proof.
+  unfold decode, decode_head.
+  do 16 (destruct d as [|? d]; [reflexivity|]).
+  destruct (negb _); [reflexivity|].
+  destruct (len _ <? _); [reflexivity|].
+  destruct (if _ =? DT_PENETRATE then _ else _) as [[tsb r1]| |]; try reflexivity. cbn [bind].
+  destruct (if is_video_dt _ then _ else _) as [[iv r2]| |]; try reflexivity. cbn [bind].
+  destruct (take 2 r2) as [[lb r3]| |]; try reflexivity.
 Qed.
